@@ -170,9 +170,17 @@ func (p *c17Peer) violation(sig, summary string) {
 	p.c.Violation(sig, fmt.Sprintf("scenario %d: %s", p.sc.ID, summary), p.dump())
 }
 
+// starvedGap is the largest scheduling gap the canary saw. A gap is recorded only when the canary's next
+// tick is delivered, so a stall that has just ended (and made this goroutine late) may not be on record
+// yet: give the canary a few ticks first.
+func (p *c17Peer) starvedGap() time.Duration {
+	time.Sleep(40 * time.Millisecond)
+	return p.canary.MaxGap()
+}
+
 // timed reports a violation that rests on a wall-clock deadline, unless the process was starved.
 func (p *c17Peer) timed(sig, summary string) {
-	if g := p.canary.MaxGap(); g > c17StarvedGap {
+	if g := p.starvedGap(); g > c17StarvedGap {
 		p.c.Inconclusive(fmt.Sprintf("scenario %d: %s — not judged, scheduling gap of %s observed", p.sc.ID, summary, g))
 		return
 	}
@@ -838,7 +846,7 @@ func (p *c17Peer) awaitConvergence() bool {
 		p.mu.Lock()
 		moved := p.progress != stamp
 		p.mu.Unlock()
-		if g := p.canary.MaxGap(); g <= c17StarvedGap && !moved {
+		if g := p.starvedGap(); g <= c17StarvedGap && !moved {
 			p.violation(sig2, fmt.Sprintf("%s (still so after a further %s without any scheduling gap and without any message)", sum, c17Confirm))
 			return false
 		}
